@@ -498,3 +498,12 @@ Lemma nobd_disagrees_l :
   map snd (match format_bibliography_nobd f5_db [[99%N]] 2 [[116%N]] with Ok (_, o) => o | _ => [] end) = [[None]] /\
   map snd (match format_bibliography f5_db [[99%N]] 2 [[116%N]] with Ok (_, o) => o | _ => [] end) = [[Some [84%N]]].
 Proof. vm_compute. repeat split. Qed.
+
+(* ---- the BST variable crossref ------------------------------------------------------------ *)
+Lemma crossref_value_spec_l : forall d e,
+  crossref_value d e = Ok (match parent d e with Some p => BStr (e_key p) | None => BMissing s_crossref end).
+Proof.
+  intros d e. unfold crossref_value, parent.
+  destruct (ci_get (e_fields e) s_crossref) as [v|]; [|reflexivity].
+  destruct (ci_get d v); reflexivity.
+Qed.
